@@ -298,6 +298,8 @@ def cases_for_graph(ctx, a, rng, name='', simple=True, ks=None, funcs=('tri', 'c
 
 
 def _same(c, model, impl, spec_ok):
+    if model.startswith('err') and impl.startswith('err'):
+        return True      # refused at the same place; the class / wording of the exception is not part of the property
     if c.canon == 'float' and model.startswith('ok ') and impl.startswith('ok '):
         m, i = model[3:], impl[3:]
         if m == 'nan' or i in ('nan', 'inf'):
